@@ -376,9 +376,27 @@ def check_resize_keep(ctx, prog):
     ctx.analysed(f)
     nparam = f['params'][0]
     copies = [e for e in fn_exprs(f) if e.get('k') == 'call' and e.get('fn') in ('memcpy', 'memmove') and len(e.get('a', [])) == 3]
+    # a copy made by a file-level helper (`newBuffer(size, src, ncopy)`): the helper's memcpy with the arguments of the call
+    for e in fn_exprs(f):
+        if e.get('k') == 'call' and e.get('fn') and not e.get('clsp') and e.get('fn') not in ('memcpy', 'memmove'):
+            for h in prog.fn(e['fn'], e.get('sig')):
+                if not h.get('body') or len(h.get('params') or []) != len(e.get('a') or []):
+                    continue
+                pidx = dict((p_['id'], j) for j, p_ in enumerate(h['params']))
+                for m_ in fn_exprs(h):
+                    if m_.get('k') == 'call' and m_.get('fn') in ('memcpy', 'memmove') and len(m_.get('a', [])) == 3:
+                        s_ = strip(m_['a'][1])
+                        c_ = strip(m_['a'][2])
+                        while s_.get('k') == 'cast':
+                            s_ = strip(s_['e'])
+                        if s_.get('k') == 'var' and s_.get('id') in pidx and c_.get('k') == 'var' and c_.get('id') in pidx:
+                            copies.append({'k': 'call', 'fn': m_['fn'], 'l': e.get('l'), 'a': [m_['a'][0], e['a'][pidx[s_['id']]], e['a'][pidx[c_['id']]]]})
+    keep_ids = [p_['id'] for p_ in f['params'][1:2]]
     n = 0
     for c in copies:
         src = strip(c['a'][1])
+        while src.get('k') == 'cast':
+            src = strip(src['e'])
         if not (src.get('k') == 'mem' and src.get('f') in ('_str', '_space')):
             continue
         n += 1
@@ -391,7 +409,7 @@ def check_resize_keep(ctx, prog):
                             if e is not None and e.get('k') == 'mem' and e.get('f') == '_len':
                                 return L
                             return bytesets.Evaluator.ev(self, e)
-                    got = Ev(prog, f, {nparam['id']: N}).ev(c['a'][2])
+                    got = Ev(prog, f, dict([(nparam['id'], N)] + [(k_, 1) for k_ in keep_ids])).ev(c['a'][2])
                     ctx.evaluations += 1
                     if got < L + 1:
                         bad.append((L, N, got))
